@@ -5,7 +5,7 @@
 # Prints one line per change and writes seeded_results.jsonl in the current directory.
 set -u
 TIER=${1:-quick}; shift || true
-PAT=${*:-*}
+PAT="${*:-*}"
 V=$(cd "$(dirname "$0")/.." && pwd)
 cd "$V" || exit 2
 export GOFLAGS=-mod=mod GOPROXY=off GOSUMDB=off GOTOOLCHAIN=local
@@ -16,7 +16,7 @@ trap 'git -C /repo worktree prune; rm -rf "$SCR"' EXIT
 if [ ! -x lean/.lake/build/bin/oracle ]; then ./check --setup > "$SCR/setup.log" 2>&1 || { tail -30 "$SCR/setup.log"; echo "setup failed"; exit 2; }; fi
 for d in seeded/*/; do
   name=$(basename "$d"); id=${name%-*}
-  ok=0; for p in $PAT; do case "$name" in $p) ok=1;; esac; done; [ $ok = 1 ] || continue
+  ok=0; set -f; for p in $PAT; do case "$name" in $p) ok=1;; esac; done; set +f; [ $ok = 1 ] || continue
   grep -q "'$id'" tools/props.py || { echo "$name: property not claimed, skipped"; continue; }
   WT="$SCR/wt-$name"
   git -C /repo worktree add -q --detach "$WT" HEAD || { echo "$name: worktree failed"; continue; }
